@@ -250,9 +250,10 @@ Print Assumptions C17_mermaid_chart_shape.
 
 (* ======================================================================= RDF *)
 (* a triple SET: the has_child triples are exactly the image of the tree edges
-   whose parent is exported *)
-Theorem C17_rdf_edges_of_node : forall a s x y,
-  In (THasChild x y) (rdf_of_node true a s) <->
+   whose parent is exported -- whatever a node_mapper answers ([sk n]: it
+   answers False for n, which only suppresses n's standard attributes) *)
+Theorem C17_rdf_edges_of_node : forall sk a s x y,
+  In (THasChild x y) (rdf_of_node true sk a s) <->
   exists p c, In p (export a s) /\ In c (rch p) /\ x = RLit (rdid p) /\ y = RLit (rdid c).
 Proof. exact rdf_of_node_has_child. Qed.
 Print Assumptions C17_rdf_edges_of_node.
@@ -266,11 +267,13 @@ Print Assumptions C17_rdf_edges_of_tree.
 
 (* one name triple (and kind triple for typed nodes) per exported node, one
    index triple per node below the start: its position among its siblings *)
-Theorem C17_rdf_attributes_of_node : forall fx a s g,
-  (forall nm, In (TName g nm) (rdf_of_node fx a s) <-> exists n, In n (export a s) /\ g = RLit (rdid n) /\ nm = rname n) /\
-  (forall k, In (TKind g k) (rdf_of_node fx a s) <-> exists n, In n (export a s) /\ g = RLit (rdid n) /\ rkind n = Some k) /\
-  (forall i, In (TIndex g i) (rdf_of_node fx a s) <->
-             exists p c, In p (pre s) /\ nth_error (rch p) i = Some c /\ g = RLit (rdid c)).
+Theorem C17_rdf_attributes_of_node : forall fx sk a s g,
+  (forall nm, In (TName g nm) (rdf_of_node fx sk a s) <->
+              exists n, In n (export a s) /\ sk n = false /\ g = RLit (rdid n) /\ nm = rname n) /\
+  (forall k, In (TKind g k) (rdf_of_node fx sk a s) <->
+             exists n, In n (export a s) /\ sk n = false /\ g = RLit (rdid n) /\ rkind n = Some k) /\
+  (forall i, In (TIndex g i) (rdf_of_node fx sk a s) <->
+             exists p c, In p (pre s) /\ nth_error (rch p) i = Some c /\ sk c = false /\ g = RLit (rdid c)).
 Proof. exact all_rdf_attributes_of_node. Qed.
 Print Assumptions C17_rdf_attributes_of_node.
 
@@ -321,10 +324,22 @@ Example ex_mermaid :
 Proof. vm_compute. repeat split. Qed.
 
 Example ex_rdf :
-  In (THasChild (RLit (DInt 0)) (RLit (DInt 10))) (rdf_of_node true false ex_a) /\
-  ~ In (THasChild (RLit (DInt 10)) (RLit (DInt 0))) (rdf_of_node true false ex_a) /\
-  In (THasChild (RLit (DInt 10)) (RLit (DInt 0))) (rdf_of_node true true ex_a) /\
+  In (THasChild (RLit (DInt 0)) (RLit (DInt 10))) (rdf_of_node true no_mapper false ex_a) /\
+  ~ In (THasChild (RLit (DInt 10)) (RLit (DInt 0))) (rdf_of_node true no_mapper false ex_a) /\
+  In (THasChild (RLit (DInt 10)) (RLit (DInt 0))) (rdf_of_node true no_mapper true ex_a) /\
   In (THasChild RSys (RLit (DInt 10))) (rdf_of_tree true [84%Z] ex_root).
+Proof.
+  vm_compute. repeat split; try tauto.
+  intros H. repeat (destruct H as [H|H]; [discriminate H|]). exact H.
+Qed.
+
+(* a node_mapper answering False for node 2: its edges stay, its attributes go *)
+Example ex_rdf_mapper :
+  let sk := fun t : rt => Nat.eqb (rid t) 2 in
+  In (THasChild (RLit (DInt 10)) (RLit (DInt 0))) (rdf_of_node true sk true ex_a) /\
+  In (THasChild (RLit (DInt 0)) (RLit (DInt 10))) (rdf_of_node true sk true ex_a) /\
+  ~ In (TName (RLit (DInt 0)) [98%Z]) (rdf_of_node true sk true ex_a) /\
+  In (TName (RLit (DInt 0)) [98%Z]) (rdf_of_node true no_mapper true ex_a).
 Proof.
   vm_compute. repeat split; try tauto.
   intros H. repeat (destruct H as [H|H]; [discriminate H|]). exact H.
@@ -334,8 +349,8 @@ Qed.
 Example ex_run17 :
   match CaseC17.run17 (ex_root, [0; 1; 3]%Z,
                        [(1%Z, MO false [84; 68]%Z TitleOff [] false true None None)],
-                       [(1%Z, DO true true [] [([97], [98])]%Z [] None (Some ([99], [100]))%Z)]) with
-  | L [L [L [L d0; L m0; L [_]]; L [_; _; L [_; _]]; L [_; _; L [_; _]]]; L [L chart]; L [L doc]] =>
+                       [(1%Z, DO true true [] [([97], [98])]%Z [] None (Some ([99], [100]))%Z)], [2]%Z) with
+  | L [L [L [L d0; L m0; L [_]]; L [_; _; L [_; _; _; _]]; L [_; _; L [_; _; _; _]]]; L [L chart]; L [L doc]] =>
       length d0 = 4 /\ length m0 = 4 /\ length chart = 13 /\ length doc = 17
   | _ => False
   end.
@@ -356,7 +371,7 @@ Print Assumptions C17_D36_prerepair_refuted.
    falsy: C17_rdf_edges_of_node fails for the unrepaired test *)
 Theorem C17_D37_prerepair_refuted :
   ~ (forall a s x y, (exists p c, In p (export a s) /\ In c (rch p) /\ x = RLit (rdid p) /\ y = RLit (rdid c)) ->
-                     In (THasChild x y) (rdf_of_node false a s)).
+                     In (THasChild x y) (rdf_of_node false no_mapper a s)).
 Proof.
   intros H.
   specialize (H true ex_a (RLit (DInt 0)) (RLit (DInt 10))).
